@@ -339,7 +339,21 @@ func CompileList(list List) (f Object) {
 		switch ta := list[0].(type) {
 		case Symbol:
 			name := strings.ToLower(string(ta))
-			if fi := CurrentPackage.funcs[name]; fi != nil {
+			// A package qualified name refers to the function of that package
+			// just like a call evaluated from the list form does.
+			pkg := CurrentPackage
+			if i := strings.IndexByte(name, ':'); 0 < i {
+				if p := FindPackage(name[:i]); p != nil {
+					vname := strings.TrimLeft(name[i:], ":")
+					private := strings.HasPrefix(name[i:], "::")
+					fi := p.funcs[vname]
+					if fi == nil || private || fi.Export || CurrentPackage == fi.Pkg {
+						pkg = p
+						name = vname
+					}
+				}
+			}
+			if fi := pkg.funcs[name]; fi != nil {
 				f = fi.Create(list[1:])
 			} else {
 				// A placeholder for a function that is not defined yet. It is
@@ -349,11 +363,14 @@ func CompileList(list List) (f Object) {
 				// If the function was removed with fmakunbound the Lambda
 				// registered for the name is still referred to by the calls
 				// compiled earlier so it is used again.
-				lc := CurrentPackage.lambdas[name]
+				if pkg.lambdas == nil {
+					pkg.lambdas = map[string]*Lambda{}
+				}
+				lc := pkg.lambdas[name]
 				if lc == nil {
 					lc = &Lambda{}
 					lc.makeUndefined(name)
-					CurrentPackage.lambdas[name] = lc
+					pkg.lambdas[name] = lc
 				}
 				fc := func(args List) Object {
 					return &Dynamic{
@@ -364,7 +381,7 @@ func CompileList(list List) (f Object) {
 						},
 					}
 				}
-				CurrentPackage.funcs[name] = &FuncInfo{Name: name, Create: fc, Pkg: CurrentPackage, Export: true}
+				pkg.funcs[name] = &FuncInfo{Name: name, Create: fc, Pkg: pkg, Export: true}
 				f = fc(list[1:])
 			}
 			if funk, ok := f.(Funky); ok {
